@@ -393,6 +393,8 @@ def specs_cls(c, th):
 
 def specs_seq(c, th):
   masks = [[], [0], [0, 2]] if c > 2 else [[], [0], [0, 1]]
+  # masked_target_values is a set of label ids given as a sequence: repeated values mean nothing
+  masks += [[0, 0], [c - 1, 0, c - 1]]
   # masks with -inf entries, with a large finite negative entry ("-1e9 instead of -inf") and finite per-class biases
   lms = [None, [0.0] * (c - 1) + ['-inf'], ['-inf'] + [0.0] * (c - 1), [0.0] * (c - 1) + [-1e9],
          [1.0] + [0.0] * (c - 2) + [-1.0]]
